@@ -5,6 +5,8 @@ import (
 	"go/ast"
 	"go/token"
 	"go/types"
+	"golang.org/x/tools/go/cfg"
+	"os"
 	"strings"
 )
 
@@ -247,37 +249,81 @@ func runC16(c *Ctx) {
 			r.Pass("shutdown/close-after-zero", key, f.PosOf(closes[0]), "WaitIsZero precedes close(dispatcherChan)")
 		}
 	}
-	// worker loops
-	for _, row := range []struct {
-		method string
-		accept []string
-	}{{"workerReadLoop", []string{"run"}}, {"handleShutdown", []string{"run", "markDone"}}} {
-		f := p.CFGOf(pkg, "WorkerPool", row.method)
-		key := pkg + ".WorkerPool." + row.method
-		if f == nil {
-			r.Unresolved("conserve/worker", key, "method not found")
-			continue
-		}
-		_, notOK := f.CondEdges(func(e ast.Expr) bool { return exprKey(e) == "success" })
-		exempt := map[Edge]bool{}
-		for _, e := range notOK {
-			exempt[e] = true
-		}
-		handled := func(n ast.Node) bool {
-			for _, a := range row.accept {
-				if callNamed(a)(n) {
-					return true
-				}
-			}
-			return false
-		}
+	// the worker, with its loop helpers (if any) in place: every task received from the dispatch channel
+	// is run or marked done before the next receive or the exit; tasks are cancelled only under the
+	// cancel-on-shutdown option and that option never runs one
+	if f := p.CFGOf(pkg, "WorkerPool", "worker"); f == nil {
+		r.Unresolved("conserve/worker", pkg+".WorkerPool.worker", "method not found")
+	} else {
+		key := pkg + ".WorkerPool.worker"
 		isRecv := func(n ast.Node) bool {
 			u, ok := n.(*ast.UnaryExpr)
 			return ok && u.Op.String() == "<-" && fieldSel(info, u.X, "dispatcherChan")
 		}
+		// the comma-ok results of the receives: their false edges carry no task
+		exempt := map[Edge]bool{}
+		nOK := 0
+		for _, b := range f.G.Blocks {
+			if !b.Live {
+				continue
+			}
+			for _, nd := range b.Nodes {
+				as, ok := nd.(*ast.AssignStmt)
+				if !ok || len(as.Lhs) != 2 || len(as.Rhs) != 1 || !isRecv(ast.Unparen(as.Rhs[0])) {
+					continue
+				}
+				if okv := objOfIdent(info, as.Lhs[1]); okv != nil {
+					_, fE := f.VarEdges(okv)
+					for _, e := range fE {
+						if !exempt[e] {
+							exempt[e] = true
+							nOK++
+						}
+					}
+				}
+			}
+		}
+		// ... also when the receive lives in a helper that hands (task, ok) back: a tested variable all of
+		// whose origins are that ok or the constant false
+		okVars := map[types.Object]bool{}
+		for _, b := range f.G.Blocks {
+			if !b.Live {
+				continue
+			}
+			for _, nd := range b.Nodes {
+				if as, ok := nd.(*ast.AssignStmt); ok && len(as.Lhs) == 2 && len(as.Rhs) == 1 && isRecv(ast.Unparen(as.Rhs[0])) {
+					if okv := objOfIdent(info, as.Lhs[1]); okv != nil {
+						okVars[okv] = true
+					}
+				}
+			}
+		}
+		f.forEachEdgeFact(func(e Edge, b *cfg.Block, ft fact) {
+			id, isId := ast.Unparen(ft.Atom).(*ast.Ident)
+			if !isId || ft.Pol || exempt[e] || okVars[objOfIdent(info, id)] {
+				return
+			}
+			os := f.Origins(id, Point{b, len(b.Nodes) - 1})
+			if len(os) == 0 {
+				return
+			}
+			fromOK := false
+			for _, o := range os {
+				switch {
+				case okVars[objOfIdent(info, o.E)], isRecv(ast.Unparen(o.E)):
+					fromOK = true
+				case rawKey(o.E) == "false":
+				default:
+					return
+				}
+			}
+			if fromOK {
+				exempt[e] = true
+				nOK++
+			}
+		})
+		handled := func(n ast.Node) bool { return callNamed("run")(n) || callNamed("markDone")(n) }
 		recvs := f.AfterComm(isRecv)
-		bad := len(recvs) == 0 || len(notOK) == 0
-		// `for task := range ch`: every iteration starts with a successfully received task
 		var rangeLoops []loopInfo
 		for _, l := range f.Loops() {
 			if b := f.LoopBound(l); strings.HasPrefix(b, "chan:") && strings.HasSuffix(b, ".dispatcherChan") {
@@ -286,55 +332,101 @@ func runC16(c *Ctx) {
 				}
 			}
 		}
-		if len(rangeLoops) > 0 && len(recvs) == 0 {
-			bad = false
+		isRangeHead := func(b *cfg.Block) bool {
 			for _, l := range rangeLoops {
-				if _, skips := f.IterationSkips(l, handled); skips {
-					bad = true
-				}
-			}
-		}
-		for _, rp := range recvs {
-			if _, found := f.reach(rp, &searchOpts{AvoidNode: handled, AvoidEdge: func(e Edge) bool { return exempt[e] }}, func(pt Point, atExit bool) bool {
-				if atExit {
+				if l.Head == b {
 					return true
 				}
-				hit := false
-				inspectNoLit(f.nodeAt(pt), func(n ast.Node) bool {
-					if isRecv(n) {
-						hit = true
-					}
-					return !hit
-				})
-				return hit
-			}); found {
+			}
+			return false
+		}
+		bad := len(recvs)+len(rangeLoops) < 2 || (len(recvs) > 0 && nOK == 0)
+		for _, l := range rangeLoops {
+			if _, skips := f.IterationSkips(l, handled); skips {
 				bad = true
 			}
 		}
-		if bad {
-			r.Fail("conserve/worker", key, f.P.posStr(f.Body.Pos()), fmt.Sprintf("a task received from the dispatch channel is not handed to %v on every path: it is lost and its pending count never returns to zero", row.accept))
-		} else {
-			r.Pass("conserve/worker", key, f.P.posStr(f.Body.Pos()), fmt.Sprintf("every received task reaches %v", row.accept))
+		nextRecv := func(pt Point, atExit bool) bool {
+			if atExit {
+				return true
+			}
+			hit := false
+			inspectNoLit(f.nodeAt(pt), func(n ast.Node) bool {
+				if isRecv(n) {
+					hit = true
+				}
+				return !hit
+			})
+			return hit
 		}
-	}
-	if f := p.CFGOf(pkg, "WorkerPool", "handleShutdown"); f != nil {
-		// markDone only under the cancel option, run otherwise
+		for _, rp := range recvs {
+			if _, found := f.reach(rp, &searchOpts{AvoidNode: handled, AvoidEdge: func(e Edge) bool { return exempt[e] }}, nextRecv); found {
+				bad = true
+			}
+		}
+		if os.Getenv("HC_DEBUG") != "" {
+			fmt.Fprintf(os.Stderr, "worker: recvs=%d rangeLoops=%d nOK=%d okVars=%d bad=%v\n", len(recvs), len(rangeLoops), nOK, len(okVars), bad)
+		}
+		if bad {
+			r.Fail("conserve/worker", key, f.P.posStr(f.Body.Pos()), "a task received from the dispatch channel is neither run nor marked done on every path: it is lost and its pending count never returns to zero")
+		} else {
+			r.Pass("conserve/worker", key, f.P.posStr(f.Body.Pos()), fmt.Sprintf("every task received (%d receive(s), %d range loop(s) over the dispatch channel) reaches run or markDone", len(recvs), len(rangeLoops)))
+		}
+		// the option
 		tE, fE := f.CondEdges(func(e ast.Expr) bool { return fieldSel(info, e, "optCancelPendingTasksOnShutdown") })
-		ok := len(tE) > 0
-		for _, pt := range f.FindOwn(callNamed("markDone")) {
+		ok := len(tE) > 0 && len(fE) > 0
+		// (a task that is run marks itself done when it has finished: what run does inside is not the
+		// worker's decision)
+		insideRun := func(pt Point) bool {
+			for reg := f.regionOf[pt.B]; reg != nil; reg = reg.parent {
+				if reg.call != nil && callNamed("run")(reg.call) {
+					return true
+				}
+			}
+			return false
+		}
+		for _, pt := range f.Find(callNamed("markDone")) {
+			if insideRun(pt) {
+				continue
+			}
 			if _, only := f.OnlyThroughEdges(pt, tE); !only {
 				ok = false
 			}
 		}
-		for _, pt := range f.FindOwn(callNamed("run")) {
-			if _, only := f.OnlyThroughEdges(pt, fE); !only {
+		// within one task's handling (up to the next receive) the cancel branch never runs the task and
+		// the other branch never cancels it
+		within := func(e Edge, what func(ast.Node) bool) bool {
+			_, found := f.reach(Point{e.From.Succs[e.Succ], 0}, &searchOpts{AvoidNode: isRecv, AvoidEdge: func(x Edge) bool { return isRangeHead(x.From.Succs[x.Succ]) }}, func(pt Point, atExit bool) bool {
+				return !atExit && !insideRun(pt) && containsMatch(f.nodeAt(pt), what)
+			})
+			return found
+		}
+		for _, e := range tE {
+			if within(e, callNamed("run")) {
 				ok = false
 			}
 		}
+		for _, e := range fE {
+			if within(e, callNamed("markDone")) {
+				ok = false
+			}
+			if !within(e, callNamed("run")) {
+				ok = false
+			}
+		}
+		if os.Getenv("HC_DEBUG") != "" {
+			fmt.Fprintf(os.Stderr, "worker option: tE=%d fE=%d markDone=%d ok=%v\n", len(tE), len(fE), len(f.Find(callNamed("markDone"))), ok)
+			for _, e := range tE {
+				fmt.Fprintf(os.Stderr, "  tE run=%v\n", within(e, callNamed("run")))
+			}
+			for _, e := range fE {
+				fmt.Fprintf(os.Stderr, "  fE markDone=%v run=%v\n", within(e, callNamed("markDone")), within(e, callNamed("run")))
+			}
+		}
 		if ok {
-			r.Pass("conserve/worker", pkg+".WorkerPool.handleShutdown option", f.P.posStr(f.Body.Pos()), "pending tasks are cancelled only under the cancel-on-shutdown option and run otherwise")
+			r.Pass("conserve/worker", key+" option", f.P.posStr(f.Body.Pos()), "pending tasks are cancelled only under the cancel-on-shutdown option and run otherwise")
 		} else {
-			r.Fail("conserve/worker", pkg+".WorkerPool.handleShutdown option", f.P.posStr(f.Body.Pos()), "cancel/run of pending tasks must follow optCancelPendingTasksOnShutdown")
+			r.Fail("conserve/worker", key+" option", f.P.posStr(f.Body.Pos()), "cancel/run of pending tasks must follow optCancelPendingTasksOnShutdown")
 		}
 	}
 	// Task.run / markDone
